@@ -2,6 +2,7 @@ package pool
 
 import (
 	"context"
+	"errors"
 	"fmt"
 	"net/url"
 	"sync"
@@ -334,6 +335,13 @@ func (p *VipnodePool) connect(ctx context.Context, nodeID string, req ConnectReq
 		p.remoteHosts[node.ID] = service
 		p.remoteNodeLookup[service] = node.ID
 		p.mu.Unlock()
+
+		if c, ok := service.(interface{ Closed() bool }); ok && c.Closed() {
+			// The connection ended while this request was in flight and its
+			// CloseRemote may already have run, don't leave it registered.
+			p.CloseRemote(service)
+			return nil, errors.New("connection closed during connect")
+		}
 	}
 
 	if err := p.Store.SetNode(node); err != nil {
